@@ -445,6 +445,19 @@ func TestC05(t *testing.T) {
 	join := func(xs []string) string { return strings.Join(xs, histSep) }
 
 	// (1) order children: rotations / reversals / rapid-drawn permutations of the universe
+	// very large inputs (a size-dependent code path - chunking, a parallel scan, a different buffer - shows only
+	// there): each evaluated twice in this race-enabled process and compared with its fresh-process result
+	var big []string
+	for _, n := range []int{65536 + 1, 1<<20 + 1, 4<<20 + 33} {
+		pad := strings.Repeat("lorem ipsum ", n/12+1)[:n]
+		for _, v := range []string{"\" onmouseover=alert(1) x=\"", "' onerror=alert(1) x='", "` onload=alert(1) x=`", " onclick=alert(1) ", "<script>alert(1)</script>", "' or 1=1 -- ", "\" or \"a\"=\"a", " union select password from users"} {
+			big = append(big, pad+v)
+		}
+	}
+	p = c.rec.NewPart("large_inputs", fmt.Sprintf("%d inputs of 64 kB, 1 MB and 4 MB whose attack shows in one context only: two consecutive in-process evaluations == fresh(x)", len(big)), false, true, "")
+	c.ParRange(p, int64(len(big)), func(w *Worker, i int64) {
+		w.JudgeSlow(ev.Case{Kind: "history", In: big[i] + histSep + big[i]})
+	})
 	p = c.rec.NewPart("order_children", "brand-new processes evaluating the whole universe in rotated, reversed and stride-permuted orders; two-step histories (both orders) of input pairs that collide under FNV-1a-32 / FNV-1-32 / CRC-32 at equal length", false, true, "")
 	var orders []ev.Case
 	nOrd := pick(12, 64)
